@@ -39,11 +39,6 @@ var ctxTable = map[string]map[string]string{
 
 // rounding operations and the only functions allowed to call them.
 var roundingOps = map[string]bool{"Dec.Mul": true, "Dec.Quo": true, "Dec.QuoInteger": true, "Dec.Rem": true}
-var roundingAllowed = map[string]string{
-	"x/ecocredit/v3/marketplace/keeper.getSubTotalCost":         "price = quantity × ask (coin amounts are truncated afterwards; C07)",
-	"x/ecocredit/v3/marketplace/keeper.getTotalCostAndBuyerFee": "buyer fee = subtotal × rate",
-	"x/ecocredit/v3/marketplace/keeper.getSellerFee":            "seller fee = subtotal × rate",
-}
 
 func mathFnName(fn *ssa.Function) string {
 	if fn.Signature.Recv() != nil {
@@ -983,39 +978,180 @@ func ruleString(c *Ctx, p *Program, byName map[string]*ssa.Function) {
 
 // ruleM6 inventories call sites of the rounding operations. With forC05 only the
 // invariant/backing sites are reported (under C05), otherwise everything else.
-func ruleM6(c *Ctx, e *Env, rule string, forC05 bool) {
-	for _, mod := range []string{"x/ecocredit", "x/data"} {
-		m := e.Model(mod)
-		p := m.P
-		for _, pk := range p.RepoList {
-			if excludedPkg(pk.PkgPath) != "" || strings.HasSuffix(pk.PkgPath, mathPkgSuffix) {
-				continue
+// valueInexact: does a stored / minted value derive from a rounding operation — directly, or
+// through a loop accumulator (atom in tainted) that sums rounded values?
+func valueInexact(v Val, tainted map[string]bool) (bool, string) {
+	viaAcc := func(l Lin) bool {
+		for a := range l.T {
+			if tainted[a] {
+				return true
 			}
-			sp := p.ssaPkgs[pk.Types]
-			if sp == nil {
-				continue
+		}
+		return false
+	}
+	switch x := v.(type) {
+	case *DecStr:
+		if x.D != nil {
+			return valueInexact(x.D, tainted)
+		}
+	case *DecV:
+		if x.Inexact || viaAcc(x.L) {
+			return true, x.L.String()
+		}
+	case *IntV:
+		if x.Inexact || strings.Contains(x.L.String(), "trunc[") || viaAcc(x.L) {
+			return true, x.L.String()
+		}
+	case *CoinV:
+		return valueInexact(x.Amt, tainted)
+	case *CoinsV:
+		for _, it := range x.Items {
+			if bad, w := valueInexact(it, tainted); bad {
+				return bad, w
 			}
-			for _, fn := range pkgFuncs(p.SSA, sp) {
-				if !pos0(p, fn) {
+		}
+	}
+	return false, ""
+}
+
+// taintedAccumulators: loop accumulators of a handler whose value after an iteration derives from a
+// rounding operation (their atoms are "loop:<name>").
+func taintedAccumulators(h *HandlerResult) map[string]bool {
+	out := map[string]bool{}
+	for round := 0; round < 2; round++ { // an accumulator may feed another
+		for _, o := range h.Outs {
+			for _, l := range o.St.loops {
+				if o.Kind == exitLoopback && l.Tag != o.Loop {
 					continue
 				}
-				for _, ci := range callsIn(fn) {
-					sc := ci.Common().StaticCallee()
-					if sc == nil || !strings.HasSuffix(fnPkgPath(sc), mathPkgSuffix) || !roundingOps[mathFnName(sc)] {
+				for _, ph := range l.Phis {
+					badInit, _ := valueInexact(ph.Init, out)
+					badBack := false
+					if ph.Back != nil {
+						badBack, _ = valueInexact(ph.Back, out)
+					}
+					if badInit || badBack {
+						switch hv := ph.Havoc.(type) {
+						case *DecV:
+							for a := range hv.L.T {
+								out[a] = true
+							}
+						case *IntV:
+							for a := range hv.L.T {
+								out[a] = true
+							}
+						}
+					}
+				}
+			}
+		}
+	}
+	return out
+}
+
+// ruleM6 — rounding operations (Mul, Quo, QuoInteger, Rem: 34 significant digits) may only feed
+// prices and fees. Decided on the explored paths (E1), not by function name: a value that passed
+// through a rounding operation carries a taint; no tainted value may be stored into a credit
+// ledger column (balances, supplies, basket balances, sell-order quantities) nor — in the basket
+// module — be minted or burned as basket tokens. Rounding call sites that lie on explored paths
+// are thereby covered wherever they are written; a site in code the explorer does not enter
+// (invariants, genesis, queries) is reported, because nothing vouches for where its result goes.
+func ruleM6(c *Ctx, e *Env, rule string, forC05 bool) {
+	m := e.Model("x/ecocredit")
+	p := m.P
+	r := RunE1(m)
+	witnessed := map[ssa.Instruction]bool{}
+	nStored, nMint := 0, 0
+	for _, h := range r.Handlers {
+		if h.EP.Kind == "canary" {
+			continue
+		}
+		isBasket := h.EP.Service == "basket"
+		bad := ""
+		badPos := p.Pos(h.Fn.Pos())
+		n := 0
+		tainted := taintedAccumulators(h)
+		for _, o := range h.Outs {
+			st := o.St
+			for i := range st.events {
+				ev := &st.events[i]
+				if ev.Kind == "call" && roundingOps[ev.Method] {
+					witnessed[ev.Pos] = true
+				}
+				if !inScope(o, ev) {
+					continue
+				}
+				switch {
+				case ev.Kind == "write" && ev.Table != nil && ledgerTables[ev.Table.Name] && ev.Row != nil:
+					if forC05 != (ev.Table.Name == "BasketBalance") {
 						continue
 					}
-					c.Count("rounding_call_sites", 1)
-					fk := funcKey(fn)
-					key := fk + "#" + mathFnName(sc)
-					isBacking := strings.Contains(fk, "basket/keeper")
-					if forC05 != isBacking {
-						continue
+					for col, v := range ev.Row {
+						n++
+						nStored++
+						if inexact, what := valueInexact(v, tainted); inexact && bad == "" {
+							bad = fmt.Sprintf("%s.%s is stored from %s, which passed through a rounding operation (34 significant digits): ledger arithmetic must use the exact-or-error family", ev.Table.Name, col, what)
+							badPos = p.Pos(ev.Pos.Pos())
+						}
 					}
-					if why, ok := roundingAllowed[fk]; ok {
-						c.Hold(rule, key, p.Pos(ci.Pos()), "rounding operation in a confirmed price/fee computation: "+why, nil)
-					} else {
-						c.Violate(rule, key, p.Pos(ci.Pos()), "rounding operation "+mathFnName(sc)+" (34 significant digits) used outside the confirmed price/fee computations: ledger and backing arithmetic must use the exact-or-error family", nil)
+				case forC05 && isBasket && ev.Kind == "bank" && (ev.Method == "MintCoins" || ev.Method == "BurnCoins"):
+					n++
+					nMint++
+					for _, a := range []Val{r.X.coinsOf(st, ev.Args[len(ev.Args)-1])} {
+						if cs, isCoins := a.(*CoinsV); !isCoins || cs == nil {
+							if bad == "" {
+								bad = ev.Method + " of coins that are not built on the path: " + st.canon(ev.Args[len(ev.Args)-1])
+							}
+							continue
+						}
+						if inexact, what := valueInexact(a, tainted); inexact && bad == "" {
+							bad = fmt.Sprintf("%s of basket tokens with amount %s, which passed through a rounding or truncating operation: token amounts must be exact multiples of the credits moved", ev.Method, what)
+							badPos = p.Pos(ev.Pos.Pos())
+						}
 					}
+				}
+			}
+		}
+		if n == 0 {
+			continue
+		}
+		if bad != "" {
+			c.Violate(rule, h.Key+"#no-rounded-value-stored", badPos, bad, nil)
+		} else if forC05 {
+			c.Hold(rule, h.Key+"#no-rounded-value-stored", badPos, fmt.Sprintf("%d basket-balance columns / token mint-burn amounts on explored paths: none derives from a rounding operation", n), nil)
+		} else {
+			c.Hold(rule, h.Key+"#no-rounded-value-stored", badPos, fmt.Sprintf("%d ledger column values on explored paths: none derives from a rounding operation", n), nil)
+		}
+	}
+	if forC05 {
+		c.Min("basket mint/burn events checked for exactness", 2, nMint)
+	} else {
+		c.Min("ledger column values checked for exactness", 50, nStored)
+	}
+	// static inventory of rounding call sites
+	for _, mod := range []string{"x/ecocredit", "x/data"} {
+		mm := e.Model(mod)
+		pp := mm.P
+		for _, fn := range mm.subjectFns(false) {
+			if strings.HasSuffix(fnPkgPath(fn), mathPkgSuffix) || isCanaryFn(fn) {
+				continue
+			}
+			for _, ci := range callsIn(fn) {
+				sc := ci.Common().StaticCallee()
+				if sc == nil || !strings.HasSuffix(fnPkgPath(sc), mathPkgSuffix) || !roundingOps[mathFnName(sc)] {
+					continue
+				}
+				c.Count("rounding_call_sites", 1)
+				fk := funcKey(fn)
+				key := fk + "#" + mathFnName(sc)
+				isBacking := strings.Contains(fk, "basket/keeper")
+				if forC05 != isBacking {
+					continue
+				}
+				if mod == "x/ecocredit" && witnessed[ci] {
+					c.Hold(rule, key, pp.Pos(ci.Pos()), "rounding operation on explored handler paths: its result is tainted and the taint reaches no ledger column and no basket token amount (it feeds prices/fees only)", nil)
+				} else {
+					c.Violate(rule, key, pp.Pos(ci.Pos()), "rounding operation "+mathFnName(sc)+" (34 significant digits) used outside the confirmed price/fee computations: ledger and backing arithmetic must use the exact-or-error family", nil)
 				}
 			}
 		}
